@@ -50,6 +50,22 @@ CHECKS = {
    text="Exhaustive over the finite completion vocabularies in the four contexts x the lexer's tables (acceptance decided by running the server's lexer/parser, candidates harvested from lexer.rs and the reference operator list); class completion on generated multi-file workspaces at every parent-class position with 0..3 typed characters.",
    note="eight vocabulary mismatches are pinned by a snapshot test and listed as known findings (exact spelling signatures)",
    technique="exhaustive enumeration of vocabularies + property-based testing of class completion"),
+ "C05": dict(cat="exploration", design="§5 C05",
+   text="Expected use->declaration map known by construction: a scope-tracking generator (SEM) emits well-scoped multi-file programs covering every declaration kind and the use positions the indexer visits, with shadowing, optional syntax present/absent and use-after-scope probes; goto_definition is checked at three offsets of every identifier, references as exact sets, probes must not resolve and must be diagnosed. 5000 programs per quick run.",
+   note="the generator's scoping rules were audited against llvm-tblgen-14; uses of a field after a let override may resolve to the declaration or an override identifier; reference sets of overridden fields are not asserted",
+   technique="property-based testing with a by-construction oracle (scope-tracking program generator)"),
+ "C13": dict(cat="fault_enumeration", design="§5 C13",
+   text="Soundness: 5000 well-formed SEM programs per quick run must produce no diagnostic in any file. Completeness: eleven fault classes (undefined class / multiclass / identifier, missing include, dropped and surplus template argument, type-incompatible value, operator arity +1/-1, deleted token in root / in an included file) are seeded one at a time at a generated eligible site; a diagnostic must intersect the site in the seeded file, and faults in the root must leave the included files clean.",
+   note="well-formedness audited against llvm-tblgen-14 on its feature subset; token deletions restricted to ';', '=' (not before '{') and ':' whose absence is locally detectable; type faults use literals for which no TableGen conversion exists",
+   technique="property-based testing + single-fault seeding over generated programs"),
+ "C18": dict(cat="exploration", design="§5 C18",
+   text="Outline and folding expectations known by construction from the SEM generator (statement extents, declaring identifiers, template arguments, declared/overridden fields, defset membership) compared exactly with document_symbol and folding_range for every file of 5000 programs per quick run.",
+   note="outline entries of defs inside multiclass bodies and of defs named by a paste expression are not asserted",
+   technique="property-based testing with a by-construction oracle"),
+ "C19": dict(cat="exploration", design="§5 C19",
+   text="Hover (signature content, doc-comment extraction, use = declaration) at every identifier occurrence and inlay hints (exact set over the whole file; subset and in-range for every statement range, every class-name-only range and random ranges) against expectations recorded by the SEM generator; 5000 programs per quick run.",
+   note="label/signature formatting matched by containment; hints of multiclass references not asserted; fields overridden by let are exempt from the use=declaration clause",
+   technique="property-based testing with a by-construction oracle"),
 }
 
 REASON_WIP = "check not built yet in this session (work in progress; see DESIGN.md for the planned generator and oracle)"
